@@ -313,7 +313,7 @@ fn main() {
     // ---- Window iterator
     let nmax = ctx.tier.pick(64, 1024);
     for kind in ["hann", "rectangle"] {
-        for n in (2..=nmax).chain([100usize, 257, 1000, 4096, 65535, 65536, 65537].into_iter().filter(|&n| n > nmax)) {
+        for n in (2..=nmax).chain([100usize, 257, 512, 1000, 1024, 2048, 4096, 44100, 48000, 65535, 65536, 65537].into_iter().filter(|&n| n > nmax)) {
             let case = json!({"sys":"window_iter","kind":kind,"n":n});
             let _guard_scope = guard::scoped(&case.to_string());
             evals.fetch_add(1, Relaxed);
@@ -354,7 +354,7 @@ fn main() {
     // 16-bit boundary: slices of 2^16 +- 1 frames; (bin, hop) chosen so that chunks x bin stays small
     for kind in ["hann", "rectangle"] {
         for fmt in ["f64", "[i16;2]"] {
-            for l in [65535usize, 65536, 65537] {
+            for l in [1024usize, 4096, 44100, 48000, 65535, 65536, 65537] {
                 for b in [2usize, 3, 64] {
                     for h in [1usize, 2, b, b + 1, 255, 256, l / 3 + 1, l, l + 5] {
                         cases.push((kind, fmt, l, b, h));
